@@ -10,7 +10,7 @@ from mc.core import Check, h
 from mc.httph import ServerConn, read_responses
 from mc.vloop import World
 
-OPS = [("status", 200), ("status", 204), ("status", 304), ("status", 404),
+OPS = [("status", 200), ("status", 204), ("status", 304), ("status", 404), ("status", 205), ("hdr2",),
        ("cl", 0), ("cl", -1), ("cl", +1),
        ("hdr",), ("write", b""), ("write", b"a"), ("write", b"hello"),
        ("flush",), ("finish",), ("finish", b"xy"), ("raise",)]
@@ -53,6 +53,8 @@ def make_app():
                         self.set_header("Content-Length", str(max(0, tot + op[1])))
                     elif op[0] == "hdr":
                         self.set_header("X-A", "1")
+                    elif op[0] == "hdr2":
+                        self.set_header("X-B", "\u20ac")      # cannot be sent (not latin-1): set_header must refuse it
                     elif op[0] == "write":
                         self.write(op[1])
                     elif op[0] == "flush":
@@ -142,7 +144,7 @@ def reference(prog, method, version, inm):
             if len(op) > 1:
                 body += op[1]
             finished = True
-        elif op[0] == "raise":
+        elif op[0] in ("raise", "hdr2"):
             return None
     if status in (204, 304) and body:
         return None
@@ -162,6 +164,10 @@ def judge(prog, method, version, keepalive, inm, obs, twin_body_len):
     tag = "%s:HTTP/%s%s" % (method, version, "+ka" if keepalive else "")
     ref = reference(prog, method, version, inm) if raised is None else None
     rejected = ref is None      # an operation raised, or the program contradicts itself
+    h2 = next((k for k, i in enumerate(prog) if OPS[i][0] == "hdr2"), None)
+    if h2 is not None and (raised is None or raised[0] > h2):
+        bad.append(("unsendable-header-value-accepted-by-set_header",
+                    "%s: set_header('X-B', EURO SIGN) (operation %d) was accepted; raised=%r wire=%r" % (tag, h2, raised, out[:80])))
     rtag = "rejected" if rejected else "clean"
     if not rs:
         if not (rejected and closed and not out):
@@ -211,7 +217,7 @@ def judge(prog, method, version, keepalive, inm, obs, twin_body_len):
 class C02(Check):
     id = "C02"
     level = "model_checking"
-    rule = ("all handler programs of <= L operations over {set_status(200|204|304|404), set_header("
+    rule = ("all handler programs of <= L operations over {set_status(200|204|304|404|205), set_header with a value that cannot be sent, set_header("
             "Content-Length, right|short|long), set_header(X-A), write(b''|b'a'|b'hello'), flush, finish, "
             "finish(chunk), raise} x {GET, HEAD, POST} x {HTTP/1.1, HTTP/1.0, HTTP/1.0 + keep-alive} x "
             "{If-None-Match: *, none}, each followed by a pipelined GET probe on the same connection; "
